@@ -136,7 +136,7 @@ def register(PROPS):
         # a route that lets a line break through — or keeps a reference to a buffer its caller reuses — puts foreign
         # lines on the wire; the routes are run here as well (their own property is C14)
         # what reaches a writer that is slow, fails, or writes other messages meanwhile (WT) is the wire form as well
-        if case.startswith(("WT ", "RT ", "UT ", "GUT ")):
+        if case.startswith(("WT ", "RT ", "UT ", "GUT ", "GWT ")):
             return cmp_c15(case, go, m, s)
         if not case.startswith("ENC "):
             return cmp_c14(case, go, m, s)
